@@ -204,7 +204,7 @@ type ChunkWriter struct {
 // WriteChunk is called with chunked ServiceInfos.
 func (w *ChunkWriter) WriteChunk(kv *KV) error {
 	// If the key hasn't changed, keep streaming data
-	if kv.Key == w.prevKey {
+	if kv.Key == w.prevKey && w.w != nil {
 		_, err := w.w.Write(kv.Val)
 		return err
 	}
